@@ -365,12 +365,18 @@ pub fn judge(sc: &Scenario, obs: &[(usize, Obs)]) -> Judgement {
 
     // ---- results the library calls equal compile to the same program and table
     for (i, o) in obs {
-        if let Obs::Compared { a, b, parsed: true, trees_equal, options_equal, dumps_equal, outcome_a, outcome_b } = o {
+        if let Obs::Compared { a, b, parsed: true, trees_equal, options_equal, dumps_equal, cloned, handles_held, outcome_a, outcome_b } = o {
+            if *handles_held > 0 {
+                *j.counters.entry("comparisons_with_handles_on_subexpressions_held".into()).or_insert(0) += 1;
+            }
+            if *cloned {
+                *j.counters.entry("clone_comparisons".into()).or_insert(0) += 1;
+            }
             *j.counters.entry("tree_comparisons".into()).or_insert(0) += 1;
             if a == b && !(*trees_equal && *options_equal) {
                 j.violation = Some(fail(
                     "parse-results-of-one-text-not-equal",
-                    format!("subject {a}: two parse results of the same text do not compare equal (trees ==: {trees_equal}, options equal: {options_equal})"),
+                    format!("subject {a}: {} do not compare equal (trees ==: {trees_equal}, options equal: {options_equal})", if *cloned { "a parse result and its clone" } else { "two parse results of the same text" }),
                     vec![*i],
                 ));
                 return j;
@@ -387,7 +393,14 @@ pub fn judge(sc: &Scenario, obs: &[(usize, Obs)]) -> Judgement {
                         j.violation = Some(fail(
                             "equal-results-compile-differently",
                             format!(
-                                "subjects {a} and {b}: the parse results compare equal (==, and equal options) but compile, under a clock that stands still, to different {} {}",
+                                "subjects {a} and {b}: the {} compare equal (==, and equal options) but compile, under a clock that stands still, to different {} {}",
+                                if *cloned {
+                                    "parse result and its clone".to_string()
+                                } else if *handles_held > 0 {
+                                    format!("parse results (the caller held {handles_held} clones of sub-expressions of the first while compiling it)")
+                                } else {
+                                    "parse results".to_string()
+                                },
                                 if ta != tb { "programs" } else { "destination tables" },
                                 if ta != tb { first_diff(x, y) } else { format!("{tab_a:?} vs {tab_b:?}") }
                             ),
